@@ -33,7 +33,7 @@ import (
 // snapshot of /verif works on that snapshot). repoDir: the tree under test.
 var verifDir = envOr("VERIF_DIR", "/verif")
 
-const repoDir = "/repo"
+var repoDir = envOr("VERIF_REPO", "/repo")
 
 func envOr(k, d string) string {
 	if v := os.Getenv(k); v != "" {
@@ -46,7 +46,11 @@ var goBin = "go1.26.8"
 
 func env() []string {
 	e := os.Environ()
-	e = append(e, "GOFLAGS=-mod=mod", "GOPROXY=off", "GOSUMDB=off", "GOTOOLCHAIN=local", "CGO_ENABLED=0")
+	flags := "GOFLAGS=-mod=mod"
+	if mf := os.Getenv("VERIF_MODFILE"); mf != "" {
+		flags += " -modfile=" + mf
+	}
+	e = append(e, flags, "GOPROXY=off", "GOSUMDB=off", "GOTOOLCHAIN=local", "CGO_ENABLED=0")
 	return e
 }
 
@@ -81,7 +85,9 @@ func build(cli bool) *builder {
 	// go.sum of the harness = repo's go.sum (+ harness-only modules, kept in go.sum.extra)
 	sum, _ := os.ReadFile(filepath.Join(repoDir, "go.sum"))
 	extra, _ := os.ReadFile(filepath.Join(sim, "go.sum.extra"))
-	os.WriteFile(filepath.Join(sim, "go.sum"), append(sum, extra...), 0644)
+	if os.Getenv("VERIF_MODFILE") == "" { // (an alternative go.mod brings its own .sum, written by bin/check)
+		os.WriteFile(filepath.Join(sim, "go.sum"), append(sum, extra...), 0644)
+	}
 	if out, err := run(sim, nil, goBin, "build", "-o", filepath.Join(scratch, "instr"), "./instr"); err != nil {
 		die(2, "build instr: %v\n%s", err, out)
 	}
